@@ -94,7 +94,8 @@ class Repair:
 def show(app, args=True):
     rq = app.request
     try:
-        return (rq.path, rq.query_string, rq.headers.get('X-M'), rq.get_cookie('c'), rq.method, tuple(sorted((rq.url_args or {}).items())) if args else None, rq.url)
+        return (rq.path, rq.query_string, rq.headers.get('X-M'), rq.get_cookie('c'), rq.method, tuple(sorted((rq.url_args or {}).items())) if args else None, rq.url,
+                tuple(sorted(rq.cookies.items())))
     except Exception as e:  # noqa
         return ('raised', type(e).__name__, str(e)[:80])
 
@@ -134,7 +135,7 @@ def expected_show(name, i, path=None):
     m = f'{name}{i}'
     p = path or f'/r/{m}'
     args = (('x', m),) if path is None else ()
-    return (p, 'm=' + m, m, m, 'GET', args, f'http://{m}.example{p}?m={m}')
+    return (p, 'm=' + m, m, m, 'GET', args, f'http://{m}.example{p}?m={m}', (('c', m),))
 
 
 class World:
@@ -272,6 +273,9 @@ def scenarios():
     out.append(('mapped-errors:alternating', 'alternating', [('A', 1, {'req': 'big'}), ('B', 2, {'req': 'big_json'}), ('A', 3, {'req': 'big'}), ('D', 4, {'req': 'big'}),
                                                                ('B', 5, {'req': 'big'}), ('D', 6, {'req': 'big_json'}), ('A', 7, {})]))
     out.append(('mapped-errors:after-ordinary-requests', 'alternating', [('A', 1, {}), ('B', 2, {'req': 'big'}), ('A', 3, {'req': 'big_json'}), ('B', 4, {}), ('A', 5, {'req': 'big'})]))
+    # a Cookie header that is dropped as a whole (illegal name after a legal pair), then well-formed ones in the other applications
+    out.append(('dropped-cookie-header:alternating', 'alternating', [('A', 1, {'req': 'badcookie'}), ('B', 2, {}), ('D', 3, {'req': 'badcookie'}), ('A', 4, {}), ('B', 5, {'req': 'badcookie'}),
+                                                                       ('B', 6, {}), ('D', 7, {})]))
     # text bodies given in pieces, every application with a charset of its own
     out.append(('encoded-bodies:alternating', 'alternating', [('D', 1, {'req': 'enc'}), ('A', 2, {'req': 'enc'}), ('B', 3, {'req': 'enc'}), ('D', 4, {'req': 'enc'}),
                                                                 ('B', 5, {'req': 'enc'}), ('A', 6, {'req': 'enc'}), ('A', 7, {}), ('D', 8, {'req': 'enc'})]))
@@ -299,6 +303,21 @@ def run_scenario(W, steps):
             W.keep = getattr(W, 'keep', [])
             W.keep.append(W.ombott.Ombott({'max_body_size': 8, 'errors_map': {BodySizeError: W.ombott.HTTPError(400, 'mapped by another application')}}))
             continue
+        if script.get('req') == 'badcookie':
+            W.reset()
+            m = f'{app_name}{i}'
+            env = env_for(app_name, i)
+            env['HTTP_COOKIE'] = f'session={m}-secret; b@d=1; c={m}'
+            r = call_app(W.apps[app_name], env)
+            nobs += 1
+            devs.extend(check_response(W, app_name, i, r, {}))
+            for who, when, val in W.reads:
+                nobs += 1
+                e = exp_read(who, i, when)
+                e = e[:3] + (None,) + e[4:7] + ((),)       # the header is dropped as a whole: no cookie at all
+                if who != app_name or val != e:
+                    devs.append(('read', who, when, val, e))
+            continue
         if script.get('req') == 'enc':
             W.reset()
             m = f'{app_name}{i}'
@@ -324,7 +343,7 @@ def run_scenario(W, steps):
                 if when == 'err413-object':
                     exp = ('413 Request Entity Too Large', None, 'None', ())
                 elif when.endswith('-hook'):
-                    exp = ('/up', qs, m, None, 'POST', None, f'http://{m}.example/up?{qs}')
+                    exp = ('/up', qs, m, None, 'POST', None, f'http://{m}.example/up?{qs}', ())
                 if who != app_name or val != exp:
                     devs.append(('read', who, when, val, exp))
             if not any(when == 'err413' for _, when, _ in W.reads) and r.code == 413:
